@@ -716,10 +716,10 @@ class HTTPSConnection(HTTPConnection):
                 elif self._tunnel_scheme == "http":
                     self.proxy_is_verified = False
 
-                # If we're tunneling it means we're connected to our proxy.
-                self._has_connected_to_proxy = True
-
                 self._tunnel()
+
+                # The tunnel is up: from here on we are talking to the origin.
+                self._has_connected_to_proxy = True
                 # Override the host with the one we're requesting data from.
                 server_hostname = typing.cast(str, self._tunnel_host)
 
